@@ -157,6 +157,13 @@ def oracle(case):
     fresh = np.array([float(cd.cdf(xs[0], float(g))) for g in buf])
     if not np.allclose(second, fresh, rtol=1e-14, atol=0, equal_nan=True):
         return (dict(sig, clause="history-inplace"), "after changing the given array in place the conditional cdf still uses the old conditioning values")
+    # scalar x broadcast against a vector of conditioning values == one value per conditioning value
+    for m in ("cdf", "pdf", "icdf"):
+        arg = float(xs[0]) if m != "icdf" else 0.6
+        vec = np.asarray(getattr(cd, m)(arg, gs), dtype=float)
+        pt = np.array([float(getattr(cd, m)(arg, float(g))) for g in gs])
+        if len(gs) > 1 and (vec.shape != pt.shape or not np.allclose(vec, pt, rtol=1e-14, atol=0, equal_nan=True)):
+            return (dict(sig, clause="vectorised", method=m, form="scalar-x"), "%s(scalar x, given=vector) differs from pointwise evaluation: %r vs %r" % (m, np.atleast_1d(vec).tolist(), pt.tolist()))
     # vectorised == pointwise
     xs = np.array(xs)
     for m in ("cdf", "pdf", "icdf"):
@@ -194,6 +201,14 @@ def chained_oracle(rng):
         return ({"cls": "DependenceFunction", "clause": "arity"}, "wrong number of explicit parameters accepted")
     except ValueError:
         pass
+    # declared defaults belong to the trailing parameters; parameters without a default start at 1
+    def part(x, a, b=0.5, c=2.0):
+        return a + b * x + c * x * x
+    f_part = DependenceFunction(part)
+    if dict(f_part.parameters) != {"a": 1, "b": 0.5, "c": 2.0} or list(f_part.parameters) != ["a", "b", "c"]:
+        return ({"cls": "DependenceFunction", "clause": "defaults"}, "def f(x, a, b=0.5, c=2.0) gives parameters %r, expected a=1 (no default), b=0.5, c=2.0" % (dict(f_part.parameters),))
+    if not np.allclose(f_part(np.array([0.0, 1.0, 2.0])), part(np.array([0.0, 1.0, 2.0]), 1), rtol=1e-15):
+        return ({"cls": "DependenceFunction", "clause": "defaults"}, "the no-argument call does not use the declared defaults")
     # history: re-fitting the inner function changes what the outer one returns at the same g
     g = np.array([1.0, 4.0])
     before = np.asarray(f_out(g), dtype=float)
